@@ -6,7 +6,9 @@ import (
 	"fmt"
 	"io"
 	"math/rand"
+	"os"
 	"sort"
+	"strconv"
 	"sync"
 	"time"
 
@@ -183,6 +185,9 @@ func NewWorld(opt Options) *World {
 	}
 	if opt.TraceCap == 0 {
 		opt.TraceCap = 400
+		if v, err := strconv.Atoi(os.Getenv("VERIF_TRACECAP")); err == nil && v > 0 {
+			opt.TraceCap = v
+		}
 	}
 	w := &World{Opt: opt, Rnd: rand.New(rand.NewSource(opt.Seed)), events: make(chan taskEvt), parked: map[int]*Task{}, Stat: map[string]int{}}
 	w.Clk = fakeclock.NewFakeClock(Epoch.Add(opt.StartOffset))
